@@ -47,6 +47,11 @@ def configs(tier, seed):
     # `init` is documented as an ITERABLE of initial values: the same image handed over as a one-shot iterator / a tuple / a range
     for k, c in enumerate([c for c in cfgs if c["init"]][:12]):
         cfgs.append(dict(c, init_as=("generator", "tuple", "iter")[k % 3]))
+    # the image assigned through the `init` property after construction (over a different, non-zero constructor image): rows the
+    # new image does not mention are zero, exactly as if it had been given to the constructor
+    for k, c in enumerate([c for c in cfgs if c["init"] and not c.get("init_as") and c["size"] * c["g"] // c["dw"] >= 2][:10]):
+        depth = c["size"] * c["g"] // c["dw"]
+        cfgs.append(dict(c, init=c["init"][:max(1, depth // 2)] if k % 2 else c["init"], ctor_init=[(0xa5a5a5a5a5a5a5a5 + i) & ((1 << c["dw"]) - 1) for i in range(depth)]))
     return cfgs
 
 
@@ -60,7 +65,11 @@ def check_config(ctx, cfg):
             init = tuple(cfg["init"])
         elif cfg.get("init_as") == "iter":
             init = iter(list(cfg["init"]))
-        s = WishboneSRAM(size=cfg["size"], data_width=cfg["dw"], granularity=cfg["g"], writable=cfg["writable"], init=init)
+        if "ctor_init" in cfg:
+            s = WishboneSRAM(size=cfg["size"], data_width=cfg["dw"], granularity=cfg["g"], writable=cfg["writable"], init=cfg["ctor_init"])
+            s.init = init
+        else:
+            s = WishboneSRAM(size=cfg["size"], data_width=cfg["dw"], granularity=cfg["g"], writable=cfg["writable"], init=init)
     except (ValueError, TypeError) as e:
         raise Refused(str(e))
     nl = ctx.netlist(s)
